@@ -23,6 +23,7 @@ def main() -> int:
     ap.add_argument("--tier", default=os.environ.get("VERIF_TIER", "quick"), choices=["quick", "thorough"])
     ap.add_argument("--replay")
     ap.add_argument("--src")
+    ap.add_argument("--no-evidence", action="store_true", help="do not rewrite evidence/ and replays/ (used by the self-test)")
     a = ap.parse_args()
     if a.src:
         os.environ["XSM_VERIF_SRC"] = a.src
@@ -32,6 +33,7 @@ def main() -> int:
     try:
         program = Program()
         check = Check(a.prop, a.tier, program)
+        check.write_files = not a.no_evidence
         if a.replay:
             with open(a.replay) as fh:
                 check.only_key = json.load(fh)["key"]
